@@ -25,7 +25,7 @@ const (
 	tF
 )
 
-var typeNames = map[byte]lexer.TokenType{'X': tX, 'Y': tY, 'e': tE, 'f': tF}
+var typeNames = map[byte]lexer.TokenType{'X': tX, 'Y': tY, 'e': tE, 'f': tF, '$': lexer.EOF}
 
 type sliceLexer struct {
 	toks []lexer.Token
@@ -383,7 +383,7 @@ func jobs(maxLen int) []jobT {
 	rec("")
 	var out []jobT
 	for _, s := range streams {
-		for _, el := range []string{"ef", "e", ""} {
+		for _, el := range []string{"ef", "e", "", "ef$"} { // "$": the EOF type itself is in the elision set
 			out = append(out, jobT{s, el})
 		}
 	}
@@ -403,7 +403,7 @@ func plan(c *hx.Ctx) *hx.Plan {
 			(&explorer{w: w, stream: js[i].stream, elide: js[i].elide}).run()
 		},
 		Describe: func(i int) string { return fmt.Sprintf("stream=%q elide=%q", js[i].stream, js[i].elide) },
-		Rule:     "every token stream of length <= bound over {X,Y (ordinary), e,f (elidable)} x elision sets {ef,e,none}; per stream BFS to a FIXPOINT over Next, FastForward(c) for every c (model equality for cursors a PeekAny returns, invariants for others), Save/Load of 2 checkpoint slots; in every reachable state all of Peek, RawPeek, Cursor, RawCursor, PeekAny x 6 predicates and Range(i,j) for all i<=j are compared with the model. evaluations = (stream, elision set) pairs; distinct_nontrivial = distinct (stream, elision, reachable-state-count) triples; states/transitions = real-object states visited / operations executed",
+		Rule:     "every token stream of length <= bound over {X,Y (ordinary), e,f (elidable)} x elision sets {ef, e, none, ef+EOF}; per stream BFS to a FIXPOINT over Next, FastForward(c) for every c (model equality for cursors a PeekAny returns, invariants for others), Save/Load of 2 checkpoint slots; in every reachable state all of Peek, RawPeek, Cursor, RawCursor, PeekAny x 6 predicates and Range(i,j) for all i<=j are compared with the model. evaluations = (stream, elision set) pairs; distinct_nontrivial = distinct (stream, elision, reachable-state-count) triples; states/transitions = real-object states visited / operations executed",
 		Bounds:   map[string]any{"max_stream_len": maxLen, "checkpoint_slots": 2, "predicates": len(preds), "search": "fixpoint (not depth bounded)"},
 		Assume:   []string{"token identity is observed through pointer identity into the lexer's own token slice (Range)", "streams longer than the bound behave like shorter ones (small-scope hypothesis)"},
 	}
